@@ -528,7 +528,7 @@ pub fn run(tkind: TKind, depth: usize, nb_only: bool) {
     hal::reset();
     // (The read-only set also offers features the driver does not support - block size,
     // topology, discard, multiqueue: what counts is what was negotiated.)
-    let feats = [F_VERSION_1 | F_FLUSH, F_VERSION_1 | F_FLUSH | F_INDIRECT | F_EVENT_IDX, F_VERSION_1 | F_RO | (1 << 6) | (1 << 10) | (1 << 12) | (1 << 13), 0];
+    let feats = [F_VERSION_1 | F_FLUSH, F_VERSION_1 | F_FLUSH | F_INDIRECT | F_EVENT_IDX, F_VERSION_1 | F_RO | F_FLUSH | (1 << 6) | (1 << 10) | (1 << 12) | (1 << 13), 0];
     let offered = if nb_only { feats[choose(2, "offered features")] } else { feats[choose(feats.len(), "offered features")] };
     let mut cfg = Kind::Blk.default_config();
     cfg[0..8].copy_from_slice(&0x1_0000_0008u64.to_le_bytes());
